@@ -1,20 +1,21 @@
 #!/usr/bin/env python3
 """mkmutant.py <name> <file-in-repo> <old> <new> [<file> <old> <new> ...]: writes /verif/mutants/<name>.diff
-(the change is made in /repo, diffed, and undone straight away)."""
+(the change is made in the scratch worktree /tmp/wt/mine, diffed, and undone straight away)."""
 import subprocess, sys
+REPO = '/tmp/wt/mine'  # a scratch worktree of /repo, never /repo itself
 name = sys.argv[1]
 trip = sys.argv[2:]
 assert len(trip) % 3 == 0
 files = []
 for i in range(0, len(trip), 3):
     f, old, new = trip[i:i+3]
-    p = '/repo/' + f
+    p = REPO + '/' + f
     s = open(p).read()
     assert s.count(old) >= 1, "pattern not found in %s: %r" % (f, old)
     s = s.replace(old, new, 1)
     open(p, 'w').write(s)
     files.append(f)
-d = subprocess.run(['git', '-C', '/repo', 'diff'], stdout=subprocess.PIPE, text=True).stdout
+d = subprocess.run(['git', '-C', REPO, 'diff'], stdout=subprocess.PIPE, text=True).stdout
 open('/verif/mutants/%s.diff' % name, 'w').write(d)
-subprocess.run(['git', '-C', '/repo', 'checkout', '--'] + files, check=True)
+subprocess.run(['git', '-C', REPO, 'checkout', '--'] + files, check=True)
 print('wrote mutants/%s.diff (%d lines)' % (name, d.count('\n')))
